@@ -151,7 +151,15 @@ def rcases_file(pairs):
         out.append(f"Definition r{i} : rcase := {rcase_term(c, t)}.")
         names.append(f"r{i}")
     out.append(f"Definition all_rcases : list rcase := {emit.lst(names)}.")
-    out.append("Definition M := Eval vm_compute in rdiff_from 0 all_rcases.")
+    # cases whose calls share one Info struct per kind are compared through raw_diff_sh; the
+    # positions in M stay those of all_rcases
+    sh = emit.lst([emit.boolc(bool(c.get("share_info"))) for c, _ in pairs])
+    out.append(f"Definition shared_flags : list bool := {sh}.")
+    out.append("Fixpoint mdiff (i : nat) (cs : list rcase) (fl : list bool) : list (nat * nat * nat) :=\n"
+               "  match cs, fl with\n"
+               "  | c :: t, f :: ft => map (fun d => (i, fst d, snd d)) (if f then rcase_diff_sh c else rcase_diff c) ++ mdiff (S i) t ft\n"
+               "  | _, _ => []\n  end.")
+    out.append("Definition M := Eval vm_compute in mdiff 0 all_rcases shared_flags.")
     out.append("Definition V := Eval vm_compute in rviol_from 0 all_rcases.")
     out += ["Print M.", "Print V."]
     return "\n".join(out) + "\n"
